@@ -1,0 +1,113 @@
+//go:build verif
+
+package shrinkingmap
+
+// Contracts for ShrinkingMap (property C12: a plain map whose shrinking is unobservable), read by the
+// verification machinery in /verif. Comment-only file.
+//
+// The model is the Go map currently stored in s.m: has(s.m, k) / s.m[k]. Shrinking replaces s.m by a
+// copy; every postcondition is stated over the contents, so it holds whether or not a shrink happened
+// (shouldShrink compares floats, which the verifier leaves uninterpreted: both outcomes are covered).
+
+/*@
+type ShrinkingMap
+  monitor mutex level 9 guards m, deletedKeys, map:m
+  invariant self.m != nil
+
+-- option closures are user code: assumed to set option fields only
+assume-func github.com/iotaledger/hive.go/ds/shrinkingmap.Options.apply(so, opts)
+  requires so != nil
+  modifies so.shrinkingThresholdRatio, so.shrinkingThresholdCount
+
+func New
+  ensures r0 != nil && fresh(r0) && r0.m != nil && unlocked(r0.mutex)
+  ensures forall k K :: !has(r0.m, k)
+
+func ShrinkingMap.shouldShrink
+  requires s != nil && s.opts != nil && held(s.mutex)
+
+-- copies every entry into a fresh map (map-range loop: whatever is still in s.m at the end has been visited)
+func ShrinkingMap.shrink
+  requires s != nil && s.m != nil && held(s.mutex)
+  modifies s.m, s.deletedKeys
+  loop 1 invariant held(s.mutex) && newMap != nil && fresh(newMap) && s.m == old(s.m) && (forall k K :: (has(s.m, k) <==> old(has(s.m, k))) && s.m[k] == old(s.m[k]))
+  loop 1 invariant forall k K :: has(newMap, k) ==> has(s.m, k) && newMap[k] == s.m[k]
+  loop 1 invariant forall k K :: visited(k) ==> has(newMap, k)
+  ensures s.m != nil && held(s.mutex)
+  ensures forall k K :: (has(s.m, k) <==> old(has(s.m, k))) && (has(s.m, k) ==> s.m[k] == old(s.m[k]))
+
+func ShrinkingMap.delete
+  requires s != nil && s.m != nil && s.opts != nil && held(s.mutex)
+  modifies s.m, s.deletedKeys, map(s.m)
+  opt assume-no-overflow
+  ensures s.m != nil && held(s.mutex)
+  ensures deleted <==> old(has(s.m, key))
+  ensures !has(s.m, key)
+  ensures forall k K :: k != key ==> (has(s.m, k) <==> old(has(s.m, k))) && (has(s.m, k) ==> s.m[k] == old(s.m[k]))
+
+func ShrinkingMap.Set
+  opt sequential
+  requires s != nil && unlocked(s.mutex)
+  modifies map(s.m)
+  ensures wasCreated <==> !old(has(s.m, key))
+  ensures has(s.m, key) && s.m[key] == value && s.m == old(s.m)
+  ensures forall k K :: k != key ==> (has(s.m, k) <==> old(has(s.m, k))) && s.m[k] == old(s.m[k])
+  ensures unlocked(s.mutex)
+
+func ShrinkingMap.Get
+  opt sequential
+  requires s != nil && unlocked(s.mutex)
+  ensures exists <==> has(s.m, key)
+  ensures exists ==> value == s.m[key]
+  ensures unlocked(s.mutex)
+
+func ShrinkingMap.Has
+  opt sequential
+  requires s != nil && unlocked(s.mutex)
+  ensures has <==> has(s.m, key)
+  ensures unlocked(s.mutex)
+
+func ShrinkingMap.Size
+  opt sequential
+  requires s != nil && unlocked(s.mutex)
+  ensures size == len(s.m)
+  ensures unlocked(s.mutex)
+
+func ShrinkingMap.Delete
+  opt sequential
+  requires s != nil && s.opts != nil && unlocked(s.mutex)
+  callback optCondition() (c)
+  modifies s.m, s.deletedKeys, map(s.m)
+  ensures s.m != nil
+  ensures deleted ==> old(has(s.m, key)) && !has(s.m, key)
+  ensures len(optCondition) == 0 ==> (deleted <==> old(has(s.m, key))) && !has(s.m, key)
+  ensures forall k K :: k != key ==> (has(s.m, k) <==> old(has(s.m, k))) && (has(s.m, k) ==> s.m[k] == old(s.m[k]))
+  ensures !deleted ==> (has(s.m, key) <==> old(has(s.m, key))) && (has(s.m, key) ==> s.m[key] == old(s.m[key]))
+  ensures unlocked(s.mutex)
+
+func ShrinkingMap.DeleteAndReturn
+  opt sequential
+  requires s != nil && s.opts != nil && unlocked(s.mutex)
+  modifies s.m, s.deletedKeys, map(s.m)
+  ensures s.m != nil
+  ensures deleted <==> old(has(s.m, key))
+  ensures deleted ==> value == old(s.m[key])
+  ensures !has(s.m, key)
+  ensures forall k K :: k != key ==> (has(s.m, k) <==> old(has(s.m, k))) && (has(s.m, k) ==> s.m[k] == old(s.m[k]))
+  ensures unlocked(s.mutex)
+
+func ShrinkingMap.Clear
+  opt sequential
+  requires s != nil && unlocked(s.mutex)
+  modifies s.m, s.deletedKeys
+  ensures s.m != nil && (forall k K :: !has(s.m, k))
+  ensures unlocked(s.mutex)
+
+func ShrinkingMap.Shrink
+  opt sequential
+  requires s != nil && unlocked(s.mutex)
+  modifies s.m, s.deletedKeys
+  ensures s.m != nil
+  ensures forall k K :: (has(s.m, k) <==> old(has(s.m, k))) && (has(s.m, k) ==> s.m[k] == old(s.m[k]))     -- unobservable
+  ensures unlocked(s.mutex)
+@*/
